@@ -355,6 +355,7 @@ class Scenario:
             "byte": ".byte %d\n.byte %d" % (k & 0xFF, (k >> 4) & 0xFF),
             "quad": ".quad 0x%x" % (0x1122334455000000 + k),
             "selfloop": ".Lx:\nmov eax, %d\njne .Lx" % k,
+            "align16": "mov eax, %d\n.align 16\nmov ebx, %d" % (k, k),
         }
         if name.startswith("jmp:"):
             text = "mov eax, %d\njmp %s" % (k, name[4:])
